@@ -107,6 +107,10 @@ class Frag:
         ins = self.fn.defs.get(name)
         if ins is None or depth > 20:
             raise Unknown('register %%%s has no value in this fragment' % name)
+        if ins.op == 'alloca':
+            # a local object of the enclosing function: an opaque region of its own
+            self.regs[name] = Ptr(('A', name))
+            return self.regs[name]
         if ins.op in ('getelementptr', 'bitcast', 'load', 'zext', 'sext', 'trunc', 'ptrtoint', 'inttoptr'):
             self.lazy_defs.append(ins)
             self.step(ins)
